@@ -447,3 +447,17 @@ SPECS["C17"]["level_text"] += (". Added: per-iteration step clauses on the track
     "the indices nor the title); the cue-or-sampler decision of attempt_parse_cue_sheet")
 SPECS["C20"]["level_text"] += (". Added: layout obligations for the live ProgramHeaderConstruct (every field of the 72-byte header), the static part of KeygroupConstruct (34 bytes) and "
     "VelocityZoneConstruct (24 bytes) against the field tables of the independent program writer (offset, width, signedness of every printed parameter)")
+from contracts.transcoder import PIPE_SHAPES as _PIPE
+_PIPE_KEYS = ["lemma:pipeline_block[" + "x".join(str(c) for c in sh) + f",w={w}]" for (sh, w) in _PIPE]
+SPECS["C12"]["contracts"] += _PIPE_KEYS
+SPECS["C05"]["contracts"] += ["lemma:pipeline_block[1x1,w=2]"]
+SPECS["C12"]["level_text"] += (". Added: the WHOLE decode -> swap -> interleave pipeline for one block as a lemma over the real functions (make_transcoder, "
+    "PipelineTranscoder.__next__, decode_frame, swap_endianess(_multi), pad_channels, encode_frame) for 9 stream shapes x item widths (1x1, 2, 1x2, 2x1, 1, 3, 1x1x1 at "
+    "width 2; 1x1 at widths 1 and 4), any block size, any byte order per stream, either host order: the block has max-frames x channels x width bytes and, for every frame "
+    "below the shortest stream, byte j of output channel c is byte j (LITTLE source) or w-1-j (BIG source) of the source channel it comes from; StopIteration only when a "
+    "stream has no whole frame left. numpy is an assumed item-level model (an item = its w memory bytes; frombuffer, reshape, T, pad, astype, vstack, reshape(order='F'), "
+    "tobytes, byteswap)")
+SPECS["C12"]["not_covered"] = [x for x in SPECS["C12"].get("not_covered", []) if "numpy" not in x and "pipeline" not in x.lower()] + \
+    ["numpy itself (assumed item-level contracts)", "stream shapes beyond the nine proved ones (bounded monitor)", "concatenation of pipeline blocks over a whole stream (bounded monitor)"]
+SPECS["C05"]["level_text"] = SPECS["C05"]["level_text"].replace("'Every frame of both is preserved' for equal lengths is C12 (PipelineTranscoder) - bounded there. ",
+    "'Every frame of both is preserved': lemma:pipeline_block[1x1] (C12) - the stereo block holds frame f of the left stream in channel 0 and of the right stream in channel 1 for every f below the shorter one. ")
